@@ -44,6 +44,26 @@ Definition C06_statement_outside_known_class (cfg : vcfg) : Prop :=
 Theorem C06_acceptance_any : forall cfg, C06_acceptance cfg.
 Proof. intros cfg kw builtin uprop_name G H1 H2 H3 H4. exact (acceptance kw builtin uprop_name G cfg H1 H2 H3 H4). Qed.
 
+(* the cycle condition in the words of the property: "every path from a rule back to itself begins by matching at least one
+   character" - a reference from which the rule can be reached again (through references at any position) is never unguarded *)
+Theorem C06_acceptance_as_worded : forall cfg (kw builtin uprop_name : name -> bool) (G : grammar),
+  wellformed_names kw builtin G -> legal_counts G -> tags_ok builtin G ->
+  (forall r x, In r G -> rep_body (rexpr r) x -> starts_with_char uprop_name G x) ->
+  (forall r, In r G -> is_ws_or_comment (rname r) = true -> starts_with_char uprop_name G (rexpr r)) ->
+  (forall r l r', In r G -> In (EChoice l r') (subexprs (rexpr r)) -> starts_with_char uprop_name G l) ->
+  every_cycle_starts_with_char uprop_name G ->
+  validate kw builtin cfg G = [].
+Proof.
+  intros cfg kw builtin uprop_name G H1 H2 H3 A B C D.
+  apply (C06_acceptance_any cfg kw builtin uprop_name G H1 H2 H3).
+  split; [exact A|]. split; [exact B|]. split; [exact C|]. now apply cycles_text.
+Qed.
+
+(* the model itself is total: its fuel (number of rules + 1) never runs out, no panic site of validator.rs is reached *)
+Theorem C06_model_total : forall (kw builtin : name -> bool) cfg (G : grammar),
+  ~ In VFuel (validate kw builtin cfg G) /\ ~ In VPanic (validate kw builtin cfg G).
+Proof. intros. apply validate_total; exact (fun _ => false). Qed.
+
 (* ------------------------------------------------------------------------------------------ *)
 (* (=>) is FALSE for the code as it is: four witnesses (DESIGN.md section 4 row 2)              *)
 (* ------------------------------------------------------------------------------------------ *)
@@ -190,6 +210,8 @@ Proof.
 Qed.
 
 Print Assumptions C06_acceptance_any.
+Print Assumptions C06_acceptance_as_worded.
+Print Assumptions C06_model_total.
 Print Assumptions C06_termination_refuted.
 Print Assumptions C06_statement_refuted.
 Print Assumptions C06_witness_neg.
